@@ -25,11 +25,10 @@ class Prod:
         # Lemma L1: round(min(1.0, rw / w) * w) == min(rw, w) for 1 <= rw, w <= 200
         return self.rw if self.rw < self.w else self.w
 
-    # Other ways of turning the float product into columns (int(x + 0.5),
-    # math.floor(x + 0.5), ...): the stub still answers min(rw, w); whether the
-    # *actual* source formula equals that is exactly what lemma L1 decides from
-    # the current source (a refuted lemma is turned into a native witness, an
-    # untranslatable formula is a machinery error).
+    # round(x + c): the stub still answers min(rw, w); whether the *actual* source
+    # formula equals that is exactly what lemma L1 decides from the current
+    # source (a refuted lemma is turned into a native witness, an untranslatable
+    # formula is a machinery error).
     def __add__(self, other):
         if not isinstance(other, (int, float)) or isinstance(other, bool):
             raise StubEscape('Prod + %r' % (other,))
@@ -37,10 +36,8 @@ class Prod:
 
     __radd__ = __add__
 
-    def __int__(self):
-        return self.rw if self.rw < self.w else self.w
-
-    __trunc__ = __floor__ = __ceil__ = __int__
+    # (int(x) / math.floor(x) cannot be supported: CPython insists on a real int
+    # from __int__ / __floor__, so such formulas end as a machinery error.)
 
     def __getattr__(self, name):
         raise StubEscape('Prod.%s' % name)
